@@ -66,6 +66,24 @@ ref::RMap mapFromSpec(const Line& l) {
 	return m;
 }
 
+// every public field of a library Map, canonically
+static std::vector<uint8_t> dumpMapFields(const Map& m) {
+	std::vector<uint8_t> o;
+	auto u32 = [&](uint64_t v) { ref::putU32(o, static_cast<uint32_t>(v)); };
+	u32(static_cast<uint32_t>(m.GetVersionTag())); u32(m.IsSavedGame()); u32(m.WidthInTiles()); u32(m.HeightInTiles()); u32(m.tiles.size());
+	if (!m.tiles.empty()) { const uint8_t* p = reinterpret_cast<const uint8_t*>(m.tiles.data()); o.insert(o.end(), p, p + m.tiles.size() * 4); }
+	u32(static_cast<uint32_t>(m.clipRect.x1)); u32(static_cast<uint32_t>(m.clipRect.y1)); u32(static_cast<uint32_t>(m.clipRect.x2)); u32(static_cast<uint32_t>(m.clipRect.y2));
+	u32(m.tilesetSources.size());
+	for (auto& s : m.tilesetSources) { u32(s.tilesetFilename.size()); o.insert(o.end(), s.tilesetFilename.begin(), s.tilesetFilename.end()); if (!s.tilesetFilename.empty()) u32(s.numTiles); }
+	u32(m.tileMappings.size());
+	if (!m.tileMappings.empty()) { const uint8_t* p = reinterpret_cast<const uint8_t*>(m.tileMappings.data()); o.insert(o.end(), p, p + m.tileMappings.size() * 8); }
+	u32(m.terrainTypes.size());
+	if (!m.terrainTypes.empty()) { const uint8_t* p = reinterpret_cast<const uint8_t*>(m.terrainTypes.data()); o.insert(o.end(), p, p + m.terrainTypes.size() * 264); }
+	u32(m.tileGroups.size());
+	for (auto& g : m.tileGroups) { u32(g.tileWidth); u32(g.tileHeight); u32(g.mappingIndices.size()); for (auto x : g.mappingIndices) u32(x); u32(g.name.size()); o.insert(o.end(), g.name.begin(), g.name.end()); }
+	return o;
+}
+
 // compare every public field of a library Map with the reference model
 std::string compareMap(const Map& lib, const ref::RMap& m, bool tileGroups) {
 	if (static_cast<uint32_t>(lib.GetVersionTag()) != m.tag) return "version tag " + std::to_string(lib.GetVersionTag()) + ", expected " + std::to_string(m.tag);
@@ -276,7 +294,7 @@ FamilyRegistrar regMapStream(new MapStream);
 struct MapDamage : Family {
 	std::string name() const override { return "map-damage"; }
 
-	Plan generate(const std::string&, Rng& r, bool thorough) override {
+	Plan generate(const std::string& prop, Rng& r, bool thorough) override {
 		Plan p;
 		p.setenv("heap", r.below(256));
 		p.setenv("stack", r.below(256));
@@ -286,6 +304,8 @@ struct MapDamage : Family {
 		static const uint64_t SR[] = {0, 0, 7, 4096};
 		p.setenv("short_read", SR[r.below(4)]);
 		bool saved = r.chance(1, 4);
+		// under C06 the family asks of the same damaged inputs: whatever the MAP reader accepts must survive write -> read unchanged
+		if (prop == "C06") saved = false;
 		Line m = mkline("world", "map");
 		uint64_t lgw = r.below(saved ? 3 : 6), h = r.below(saved ? 4 : 9);
 		// one world in eight is LARGE (tile array around a multiple of 2^16..2^18 tiles): swept at selected crash points only
@@ -374,6 +394,18 @@ struct MapDamage : Family {
 			++calls;
 			if (o == ErrOther) ctx.fail("C07.ordinary-error", std::string(saved ? "ReadSavedGame" : "ReadMap") + " failed with something that is not a std::exception");
 			uint64_t vh = mix64(hashstr(dmg.verb), o);
+			if (o == OkOut && plan.property == "C06") {
+				std::vector<uint8_t> w1, w2;
+				Map again;
+				std::string lw;
+				Out lo = callLib(plan, [&] { Stream::DynamicMemoryWriter wr; map.Write(wr); auto rd = wr.GetReader(); w1.resize(static_cast<size_t>(rd.Length())); rd.Read(w1.data(), w1.size()); }, &lw);
+				if (lo != OkOut) ctx.fail("C06.fields-equal", "the reader accepted a damaged map that the writer refuses: " + lw);
+				lo = callLib(plan, [&] { Stream::MemoryReader rd(w1.data(), w1.size()); again = Map::ReadMap(rd); Stream::DynamicMemoryWriter wr; again.Write(wr); auto r2 = wr.GetReader(); w2.resize(static_cast<size_t>(r2.Length())); r2.Read(w2.data(), w2.size()); }, &lw);
+				if (lo != OkOut) ctx.fail("C06.fields-equal", "what the library wrote for an accepted (damaged) map was not read back: " + lw);
+				if (dumpMapFields(again) != dumpMapFields(map)) ctx.fail("C06.fields-equal", "an accepted (damaged) map changed in the write -> read round trip");
+				if (w1 != w2) ctx.fail("C06.byte-stable", "second write of an accepted (damaged) map differs from the first");
+				ctx.count("probe.accepted_damaged_input_checked_against_laws");
+			}
 			if (o == OkOut) {
 				uint64_t w = map.WidthInTiles(), h = map.HeightInTiles();
 				bool pow2 = w && !(w & (w - 1));
